@@ -774,7 +774,23 @@ fn run_case(isa: &dyn Isa, g: Gen, r: &mut Rng, toy: bool) -> Case {
     let mid = targets.iter().any(|t| items.iter().any(|i| i.plain && i.addr + i.len == *t));
     if mid { tags.push("has:target-inside-run".into()); }
     for (h, _, _) in &manual {
-        if run_len(*h) > 64 { tags.push("kf:manual-head-run-exceeds-window".into()); break; }
+        // exact: does the block translated at the head reach the end of the head's straight-line run?  A unit must lie
+        // inside the 64-byte window that starts at the head; MIPS ends a full window BEFORE a branch unit that starts
+        // at offset >= 56 (`offset + 8 >= bytes.len()`, also for the linking branches inside the run).
+        let avail = (0..64u64).take_while(|i| prog.get(*h + i, 1).is_some()).count() as u64;
+        let (mut a, mut o, mut fits) = (*h, 0u64, true);
+        loop {
+            match by_addr.get(&a) {
+                Some(i) if i.len > 0 => {
+                    let ok = if isa.name() == "mips" && i.len == 8 && avail == 64 { o + 8 < 64 } else { o + i.len <= avail };
+                    if !ok { fits = false; break; }
+                    if !i.plain { break; }
+                    o += i.len; a += i.len;
+                }
+                _ => break,
+            }
+        }
+        if !fits || run_len(*h) > 64 { tags.push("kf:manual-head-run-exceeds-window".into()); break; }
     }
     // MIPS: a target that is the delay slot of a reachable branch (the slot's IL is then shared between the
     // branch unit and the run that starts at the slot)
